@@ -41,6 +41,7 @@ import (
 	"os/exec"
 	"path/filepath"
 	"reflect"
+	"runtime/debug"
 	"sort"
 	"strconv"
 	"strings"
@@ -376,31 +377,54 @@ func (d *dumper) globals() []byte {
 
 func dumpGlobals() string { return string(newDumper().globals()) }
 
-// diffDump returns the paths of the leaves that differ (by line position or
-// content) between two dumps.
+// diffDump returns one line "path: old -> new" per leaf that differs between
+// two dumps.
 func diffDump(a, b string) []string {
 	if a == b {
 		return nil
 	}
+	la, lb := strings.Split(a, "\n"), strings.Split(b, "\n")
+	var out []string
+	if len(la) == len(lb) {
+		// same shape (the usual case): compare line by line
+		same := true
+		for i := range la {
+			if la[i] == lb[i] {
+				continue
+			}
+			ia, ib := strings.Index(la[i], "="), strings.Index(lb[i], "=")
+			if ia < 0 || ia != ib || la[i][:ia] != lb[i][:ib] {
+				same = false
+				break
+			}
+			out = append(out, la[i][:ia]+": "+la[i][ia+1:]+" -> "+lb[i][ib+1:])
+		}
+		if same {
+			return out
+		}
+		out = nil
+	}
 	ma := map[string]string{}
-	for _, l := range strings.Split(a, "\n") {
+	for _, l := range la {
 		if i := strings.Index(l, "="); i > 0 {
 			ma[l[:i]] = l[i+1:]
 		}
 	}
-	var out []string
 	seen := map[string]bool{}
-	for _, l := range strings.Split(b, "\n") {
+	for _, l := range lb {
 		if i := strings.Index(l, "="); i > 0 {
 			seen[l[:i]] = true
 			if va, ok := ma[l[:i]]; !ok || va != l[i+1:] {
-				out = append(out, fmt.Sprintf("%s: %s -> %s", l[:i], ma[l[:i]], l[i+1:]))
+				if !ok {
+					va = "(absent)"
+				}
+				out = append(out, l[:i]+": "+va+" -> "+l[i+1:])
 			}
 		}
 	}
 	for k, va := range ma {
 		if !seen[k] {
-			out = append(out, fmt.Sprintf("%s: %s -> (absent)", k, va))
+			out = append(out, k+": "+va+" -> (absent)")
 		}
 	}
 	sort.Strings(out)
@@ -564,19 +588,20 @@ func (r *c23runner) run(h []c23tuple) (finds []c23finding, tainted bool) {
 	return finds, tainted
 }
 
-// c23enumerate calls f for every history within the bound, grouped by the
-// first client's tuple index (the sharding unit).
-func c23enumerate(tuples []c23tuple, first int, maxClients, maxTotal int, f func(h []c23tuple) bool) bool {
+// c23enumerate calls f for every history within the bound that starts with
+// tuples[first] (the sharding unit). limit[n] is the maximal total number of
+// options of a history of n clients (0 = no history of that length).
+func c23enumerate(tuples []c23tuple, first int, limit []int, f func(h []c23tuple) bool) bool {
 	var rec func(h []c23tuple, used int) bool
 	rec = func(h []c23tuple, used int) bool {
 		if !f(h) {
 			return false
 		}
-		if len(h) == maxClients {
+		if len(h)+1 >= len(limit) {
 			return true
 		}
 		for _, t := range tuples {
-			if used+len(t) > maxTotal {
+			if used+len(t) > limit[len(h)+1] {
 				continue
 			}
 			if !rec(append(h, t), used+len(t)) {
@@ -586,7 +611,7 @@ func c23enumerate(tuples []c23tuple, first int, maxClients, maxTotal int, f func
 		return true
 	}
 	t := tuples[first]
-	if len(t) > maxTotal {
+	if len(limit) < 2 || len(t) > limit[1] {
 		return true
 	}
 	return rec([]c23tuple{t}, len(t))
@@ -622,10 +647,12 @@ func runC23() {
 	}
 
 	r := evid.New("C23")
-	maxClients, maxTotal := 2, 4
+	// limit[n] = maximal number of options in a history of n clients
+	limit := []int{0, 2, 3}
 	if evid.Thorough() {
-		maxClients = 3
+		limit = []int{0, 2, 4, 3}
 	}
+	maxClients := len(limit) - 1
 	tuples := c23tuples(len(alpha))
 
 	if os.Getenv("VERIF_SHARD") == "" {
@@ -753,10 +780,11 @@ func runC23() {
 		return
 	}
 
-	r.Rule(fmt.Sprintf("every history of 1..%d NewClient constructions in one process, each with 0..2 options (ordered, repetition allowed) from the %d exported Option constructors of config.go, at most %d options per history; option arguments are distinctive and depend on the client's position; reference = the same construction as the first action of a fresh process (%d reference processes); non-trivial (counted in distinct_nontrivial) = a history of exactly 2 clients with at least 1 option (the smallest shape in which one client can influence another; longer histories extend these and are counted in evaluations only), distinct by the ordered option names of both clients", maxClients, len(alpha), maxTotal, maxClients*len(tuples)))
+	r.Rule(fmt.Sprintf("every history of 1..%d NewClient constructions in one process, each with 0..2 options (ordered, repetition allowed) from the %d exported Option constructors of config.go, with at most %v options in a history of 1/2/3 clients; option arguments are distinctive and depend on the client's position; reference = the same construction as the first action of a fresh process (%d reference processes); non-trivial (counted in distinct_nontrivial) = a history of exactly 2 clients with at least 1 option (the smallest shape in which one client can influence another; longer histories extend these and are counted in evaluations only), distinct by the ordered option names of both clients", maxClients, len(alpha), limit[1:], maxClients*len(tuples)))
 	r.Assume("RequestIDSeed (RandomRequestID draws from math/rand) is compared as zero / non-zero only", "option argument objects are created afresh for every application, so sharing introduced by the caller is excluded", "between histories the exported defaults uacp.DefaultClientACK/DefaultServerACK are restored; the fresh-default configuration is re-checked against the fresh-process reference after every history that produced a finding")
 	deaths := evid.Sharded(r, 0, func(s evid.ShardInfo, w *evid.Run) {
 		quiet()
+		debug.SetGCPercent(800)
 		run := newC23runner(alpha, refs, initACK)
 		var histories, withFindings int64
 		stopped := false
@@ -766,7 +794,7 @@ func runC23() {
 				continue
 			}
 			evid.Publish("first client options " + fmt.Sprint(histOf(alpha, []c23tuple{tuples[first]}).Clients))
-			c23enumerate(tuples, first, maxClients, maxTotal, func(h []c23tuple) bool {
+			c23enumerate(tuples, first, limit, func(h []c23tuple) bool {
 				histories++
 				total := 0
 				for _, t := range h {
